@@ -701,7 +701,11 @@ func Run(j *job.Job, s *job.Sink) {
 				if e.Type != nil {
 					ty = e.Type.Name
 				}
-				out[e.Path()] = fmt.Sprintf("cfg=%v def=%q mand=%v units=%q type=%s %s", e.Config, e.Default, e.Mandatory, e.Units, ty, la)
+				dv := ""
+				if e.Kind == yang.LeafEntry && e.ListAttr == nil && e.Type != nil {
+					dv = fmt.Sprintf(" defvals=%q", e.DefaultValues())
+				}
+				out[e.Path()] = fmt.Sprintf("cfg=%v def=%q mand=%v units=%q type=%s %s", e.Config, e.Default, e.Mandatory, e.Units, ty, la) + dv
 				var ks []string
 				for k := range e.Dir {
 					ks = append(ks, k)
@@ -738,7 +742,24 @@ func Run(j *job.Job, s *job.Sink) {
 			if d == nil {
 				d = []string{}
 			}
-			return fmt.Sprintf("cfg=%v def=%q mand=%v units=%q type=%s %s", cfg, d, mand, rc.unitsSeen, rc.typ, la)
+			dv := ""
+			if rc.kind == "leaf" {
+				// what DefaultValues gives: the leaf's own default, else that of its type unless
+				// the leaf is mandatory (as it stands after the deviations)
+				vals := []string{}
+				switch {
+				case len(rc.defaults) > 0:
+					vals = rc.defaults
+				case rc.typ == "tdd" && rc.mandatory != "true":
+					vals = []string{"tdv"}
+				}
+				if len(vals) == 0 {
+					dv = " defvals=[]"
+				} else {
+					dv = fmt.Sprintf(" defvals=%q", vals)
+				}
+			}
+			return fmt.Sprintf("cfg=%v def=%q mand=%v units=%q type=%s %s", cfg, d, mand, rc.unitsSeen, rc.typ, la) + dv
 		}
 		ms0, errs0 := run(false)
 		if len(errs0) > 0 {
